@@ -97,6 +97,15 @@ mod verif_replay_c13_headers {
         assert!(r.is_ok(), "the response reader panicked on a one-byte UTF-16 body frame");
     }
     #[test]
+    fn c13_canonical_parameters_of_any_query_text() {
+        // query names and values with every kind of percent sequence (complete, cut short at the end, doubled), empty pieces, multi-byte text
+        for q in ["a=1", "tag%2=1", "tag%=1", "%=1", "%2", "%", "a%2", "a=%", "a=%2", "%zz=%zz", "a%20b=c%2", "=&&=&a", "n%c3%a9=v", "\\u{e9}=\\u{20ac}", "a=1&a=2&A=3", "x%2%2=%%"] {
+            let uri: hyper::Uri = match format!("/machine?{}", q).parse() { Ok(u) => u, Err(_) => continue };
+            let r = std::panic::catch_unwind(|| super::get_path_and_canonicalized_parameters(&uri));
+            assert!(r.is_ok(), "get_path_and_canonicalized_parameters panicked on the query {:?}", q);
+        }
+    }
+    #[test]
     fn c13_canonical_headers_with_blank_and_empty_values() {
         // every value a client can send: empty, only blanks / tabs, padded on either side, one character
         for v in ["", " ", "\\t", " \\t \\t ", " a", "a ", " a b ", "a"] {
@@ -257,6 +266,14 @@ def check(rep, tier, seed):
     rep.functions_encoded.append(lp + " [slices from every Instant::elapsed() to the next sleep]")
     results["looptime"] = (tpaths, tpan)
 
+    # 7. the canonical string of the signing path is computed from client-chosen text (URL, header names and values)
+    results["canon"] = explore_site(rep, ctx, "get_path_and_canonicalized_parameters", ctx.one("hyper_client::get_path_and_canonicalized_parameters"), loop_bound=1)
+    # 8. the key step of the key-keeper loop handles host-chosen documents: no unwrap / expect on a value the host controls
+    import p_c08
+    eng8, kpaths = p_c08.key_section(ctx, rep)
+    kpan = [r for r in kpaths if r.status == "panic" and re.search(r"unwrap|expect|index|slice|overflow", (r.note or "") + " ".join(str(e.callee) for e in r.events if e.kind == "panic"))]
+    results["keystep"] = (kpaths, kpan)
+
     # ---- native replays (only for sites with feasible panic paths) ----
     need = {k for k, (ps, pan) in results.items() if pan}
     native = {}
@@ -268,7 +285,7 @@ def check(rep, tier, seed):
     inj = []
     if "status" in need:
         inj.append(("proxy_agent/src/shared_state/agent_status_wrapper.rs", TEST_STATUS))
-    if "headers" in need or "utf16" in need or "utf16body" in need:
+    if "headers" in need or "utf16" in need or "utf16body" in need or "canon" in need:
         inj.append(("proxy_agent/src/common/hyper_client.rs", TEST_HEADERS))
     if inj:
         res, out = replay_mod.run_rust_tests("azure-proxy-agent", inj, "verif_replay_c13", no_args=True)
@@ -276,11 +293,17 @@ def check(rep, tier, seed):
         native["status"] = res.get("c13_get_module_status_long_multibyte_message")
         hs = (res.get("c13_canonical_headers_with_obs_text_value"), res.get("c13_canonical_headers_with_blank_and_empty_values"))
         native["headers"] = "FAILED" if "FAILED" in hs else hs[0]
+        native["canon"] = res.get("c13_canonical_parameters_of_any_query_text")
         native["utf16"] = res.get("c13_odd_length_utf16_body")
         us = (res.get("c13_odd_length_utf16_body"), res.get("c13_one_byte_utf16_body"), res.get("c13_utf16_body_in_frames_of_any_length"))
         native["utf16body"] = "FAILED" if "FAILED" in us else res.get("c13_one_byte_utf16_body")
         files["status"] = save_replay("C13", "get_module_status.rs", "// append to proxy_agent/src/shared_state/agent_status_wrapper.rs\n" + TEST_STATUS)
-        files["headers"] = files["utf16"] = files["utf16body"] = save_replay("C13", "hyper_client.rs", "// append to proxy_agent/src/common/hyper_client.rs\n" + TEST_HEADERS)
+        files["canon"] = files["headers"] = files["utf16"] = files["utf16body"] = save_replay("C13", "hyper_client.rs", "// append to proxy_agent/src/common/hyper_client.rs\n" + TEST_HEADERS)
+    if "keystep" in need:
+        import batteries
+        r8, out8 = replay_mod.run_rust_tests("azure-proxy-agent", [("proxy_agent/src/key_keeper.rs", batteries.C13_KEYSTEP)], "verif_battery_c13_keystep", no_args=True, timeout=2400)
+        native["keystep"] = (r8 or {}).get("c13_key_keeper_task_survives_every_status_sequence")
+        files["keystep"] = save_replay("C13", "key_step_status_sequences.rs", "// append to proxy_agent/src/key_keeper.rs; run the whole azure-proxy-agent test binary\n" + batteries.C13_KEYSTEP)
     if "looptime" in need:
         import batteries
         pkg, inj6, flt, no_args = batteries.BATTERIES["C13"][0][:4]
@@ -306,6 +329,7 @@ def check(rep, tier, seed):
         files["summary"] = save_replay("C13", "log_connection_summary_e2e.rs", "// e2e: caller command line = VERIF_CMDLINE_PREFIX + 4000 x U+00E9; run with prefix \"\" and \"a\" (one of them puts byte 4096 inside a character)\n" + full)
     names = {"event": "event_logger::write_event (message[..4096])", "summary": "log_connection_summary (error_details.truncate(4096))", "status": "get_module_status (&message[0..1024])",
              "headers": "headers_to_canonicalized_string (value.to_str().unwrap())", "utf16": "read_response_body utf-16 decoder (chunk[1])", "utf16body": "read_response_body frame loop (indexing / slicing of a body frame)",
+             "canon": "get_path_and_canonicalized_parameters (query text chosen by the client, on the signing path)", "keystep": "KeyKeeper::loop_poll key step (unwrap / index on host-controlled documents)",
              "looptime": "KeyKeeper::loop_poll time arithmetic between a clock reading and the next sleep (elapsed time is any value)"}
     for k, (ps, pan) in results.items():
         site_result(rep, "C13." + k, names[k], ps, pan, native.get(k), files.get(k))
